@@ -67,10 +67,15 @@ type fragReader struct {
 	err   error
 	// withData: the last bytes come together with io.EOF (or with the injected error), as a QUIC stream does on FIN
 	withData bool
+	// transient: the failure is reported once (a read timeout), after which the stream would go on delivering
+	transient bool
 }
 
 func (f *fragReader) Read(p []byte) (int, error) {
 	if f.errAt >= 0 && f.pos >= f.errAt {
+		if f.transient {
+			f.errAt = -1
+		}
 		return 0, f.err
 	}
 	if f.pos >= len(f.data) {
@@ -533,6 +538,10 @@ func runReader(c rdCase, newConn func(st *memStream) (*webtrans.Conn, func() boo
 	r := rand.New(rand.NewSource(c.Seed))
 	fr := &fragReader{data: c.Stream, errAt: c.ErrAt, err: errInjected}
 	frag := c.Frag
+	if strings.HasSuffix(frag, "+tr") {
+		fr.transient = true
+		frag = strings.TrimSuffix(frag, "+tr")
+	}
 	if strings.HasSuffix(frag, "+eof") {
 		fr.withData = true
 		frag = strings.TrimSuffix(frag, "+eof")
@@ -726,11 +735,14 @@ func rdCases(seed int64, nRandom int) []rdCase {
 	// the same with a first message long enough to be consumed partly: every offset x every consumption pattern,
 	// the failure arriving alone or together with the last bytes
 	{
-		s := append(frame(true, 16, 600), frame(false, 7, 20)...)
+		s := append(frame(true, 16, 300), frame(false, 7, 20)...)
 		s = append(s, frame(true, 16, 200)...)
 		for at := 0; at <= len(s); at += 1 + at/40 {
 			for pi, pat := range pats {
 				add(fmt.Sprintf("injp%d_%s", at, pat), s, 0, at, pat, []string{"all", "rand", "all+eof", "rand+eof"}[(at+pi)%4])
+				if at%3 == 0 {
+					add(fmt.Sprintf("injt%d_%s", at, pat), s, 0, at, pat, []string{"all+tr", "rand+tr", "one+tr"}[(at/3+pi)%3])
+				}
 			}
 		}
 	}
@@ -743,8 +755,8 @@ func rdCases(seed int64, nRandom int) []rdCase {
 			}
 			s := append(hdrBytes(i%2 == 0, form, uint64(n)), wtPayload(int64(i), keep)...)
 			for _, fg := range []string{"all+eof", "rand+eof", "one+eof"} {
-				if fg == "one+eof" && keep > 2000 {
-					continue
+				if (fg == "one+eof" && keep > 500) || (fg == "rand+eof" && keep > 6000) {
+					continue // thousands of tiny reads: the fold over the operations is quadratic
 				}
 				add(fmt.Sprintf("eoft%d_%d_%s", i, keep, fg), s, 0, -1, "message", fg)
 				add(fmt.Sprintf("eoftp%d_%d_%s", i, keep, fg), append(frame(false, 7, 5), s...), 0, -1, "partial", fg)
